@@ -110,6 +110,7 @@ pub fn run(rep: &'static Report) {
             }
         });
     }
+    cli_level(rep);
     rep.extra("production_file_edits", json!({"file_len":file.len(),"bit_flips":bytes.len()*8,"truncations":truncs.len(),"complete": rep.tier == Tier::Thorough}));
     // unique graph states are distinct byte strings by construction; minted words likewise
     rep.add_distinct(rep.states.load(Ordering::Relaxed));
@@ -119,7 +120,104 @@ pub fn run(rep: &'static Report) {
     rep.set_exhaustive(true);
 }
 
+/// `kestrel decrypt` / `password decrypt` on authentic and edited files, to fresh and to pre-existing output paths and to stdout:
+/// exit 0 implies the output is exactly the complete original plaintext; edited files exit 1.
+fn cli_level(rep: &Report) {
+    use crate::fx::Party;
+    use crate::proc::{self, Cmd, Scratch};
+    let seed = rep.seed;
+    let alice = Party::new(seed, "alice", "alicepw");
+    let bob = Party::new(seed, "bob", "bobpw");
+    let kr = crate::fx::keyring(&[(&alice, false), (&bob, true)]);
+    let p = plaintext(seed ^ 0x3c, CS + 700);
+    let f = r::write_key_file(&alice.sk, &bob.pk, &derive32(seed, "c03-cli-e"), &derive32(seed, "c03-cli-p"), &p, &[CS, 700]).unwrap();
+    let salt = derive32(seed, "c03-cli-salt");
+    let q = r::write_pass_file_with_key(&r::pass_key(b"filepw", &salt), &salt, &p, &[CS, 700]);
+    let edits = |file: &[u8], h: usize| -> Vec<(&'static str, Vec<u8>, bool)> {
+        let rec2 = h + 32 + CS;
+        let flip = |at: usize| {
+            let mut v = file.to_vec();
+            v[at] ^= 0x80;
+            v
+        };
+        let mut ext = file.to_vec();
+        ext.push(0);
+        let mut dup = file.to_vec();
+        dup.extend_from_slice(&file[rec2..]);
+        let mut swapped = file[..h].to_vec();
+        swapped.extend_from_slice(&file[rec2..]);
+        swapped.extend_from_slice(&file[h..rec2]);
+        let mut ctr = file.to_vec();
+        ctr[h + 7] ^= 1; // counter field of chunk 0: advisory
+        vec![
+            ("authentic", file.to_vec(), true),
+            ("counter-field-bit", ctr, true),
+            ("header-bit", flip(h - 1), false),
+            ("magic-bit", flip(3), false),
+            ("chunk-1-flag-bit", flip(h + 11), false),
+            ("chunk-2-body-bit", flip(rec2 + 20), false),
+            ("last-tag-bit", flip(file.len() - 1), false),
+            ("prefix-at-chunk-boundary", file[..rec2].to_vec(), false),
+            ("prefix-mid-chunk", file[..rec2 + 100].to_vec(), false),
+            ("extended", ext, false),
+            ("final-record-duplicated", dup, false),
+            ("chunks-swapped", swapped, false),
+            ("first-chunk-dropped", [file[..h].to_vec(), file[rec2..].to_vec()].concat(), false),
+        ]
+    };
+    let mut jobs: Vec<(String, Vec<u8>, bool, bool, u8)> = vec![];
+    for (mode, file, h) in [("key", &f, 132usize), ("pass", &q, 36usize)] {
+        for (en, bytes, ok) in edits(file, h) {
+            for out_kind in 0..3u8 {
+                jobs.push((format!("{}/{}", mode, en), bytes.clone(), ok, mode == "key", out_kind));
+            }
+        }
+    }
+    jobs.par_iter().for_each(|(name, bytes, should_accept, key_mode, out_kind)| {
+        rep.eval(1);
+        rep.nontrivial(format!("cli-{}-{}", name, out_kind).as_bytes());
+        let attempt = || -> Result<(), String> {
+            let sc = Scratch::new();
+            sc.write("in.ktl", bytes);
+            sc.write("kr.txt", kr.as_bytes());
+            if *out_kind == 1 {
+                sc.write("out.bin", &vec![b'Q'; 300_000]);
+            }
+            let mut a: Vec<&str> = if *key_mode { vec!["decrypt", "in.ktl", "-t", "bob", "-k", "kr.txt", "--env-pass"] } else { vec!["password", "decrypt", "in.ktl", "--env-pass"] };
+            if *out_kind != 2 {
+                a.extend_from_slice(&["-o", "out.bin"]);
+            }
+            let out = proc::run(&Cmd::new(&a).env("KESTREL_PASSWORD", if *key_mode { "bobpw" } else { "filepw" }), &sc.0);
+            out.well_behaved()?;
+            let wname = ["-o fresh path", "-o path that held a longer file", "stdout"][*out_kind as usize];
+            if out.ok() {
+                let got = if *out_kind == 2 { out.stdout.clone() } else { sc.read("out.bin").unwrap_or_default() };
+                if !*should_accept {
+                    return Err(format!("{} ({}): an edited file was accepted (exit 0, {} bytes out)", name, wname, got.len()));
+                }
+                if got != p {
+                    return Err(format!("{} ({}): decryption succeeded but the output ({} bytes) is not identical to the complete original plaintext ({} bytes)", name, wname, got.len(), p.len()));
+                }
+            } else if *should_accept && name.ends_with("authentic") {
+                return Err(format!("{} ({}): authentic file rejected: {}", name, wname, out.summary()));
+            }
+            Ok(())
+        };
+        if attempt().is_err() {
+            if let Err(e) = attempt() {
+                rep.violation(&format!("cli/{}", if e.contains("not identical") { "accepted-with-different-output" } else if e.contains("edited file was accepted") { "edited-file-accepted" } else { "other" }), json!({"kind":"cli","name":name,"out":out_kind}), e);
+            }
+        }
+    });
+    rep.extra("cli_decrypt_cases", json!(jobs.len()));
+}
+
 pub fn replay(rep: &'static Report, case: &Value) {
+    if case["kind"] == "cli" {
+        println!("  re-running the CLI-level part of C03");
+        cli_level(rep);
+        return;
+    }
     match case["kind"].as_str().unwrap_or("") {
         "state" => graph::replay_state(rep, Which::C03, case),
         "minted" => crate::minted::replay(rep, Which::C03, case),
